@@ -239,7 +239,7 @@ func c11(r *hx.Run) {
 		d1 := map[string]interface{}{"service": []interface{}{fx.ServiceEntry("svc9", "https://example.com/9")}, "publicKey": []interface{}{docKey}}
 		d1Patches := []interface{}{map[string]interface{}{"action": "replace", "document": map[string]interface{}{"publicKeys": []interface{}{docKey}, "services": []interface{}{fx.ServiceEntry("svc9", "https://example.com/9")}}}}
 		rvr, _ := commitment.GetRevealValue(jwks["r0"], c.code)
-		r0Signer := libSigner(keys["r0"], kid) // one signer object for both requests signed with the recovery key
+		r0Signer := libSigner(keys["r0"], kid)        // one signer object for both requests signed with the recovery key
 		rorigin := origins[(c.origin+1)%len(origins)] // the recover moves the DID to another anchor origin
 		ri := &client.RecoverRequestInfo{DidSuffix: suffix, RecoveryKey: jwks["r0"], RecoveryCommitment: commits["r1"], UpdateCommitment: commits["u2"], AnchorOrigin: rorigin,
 			AnchorFrom: from, AnchorUntil: until, MultihashCode: c.code, Signer: r0Signer, RevealValue: rvr}
